@@ -107,16 +107,17 @@ Proof.
   - cbn [er_loop windows final_lo]. destruct (e_hi e - e_lo e >? bsz) eqn:E.
     + unfold get_range.
       destruct ((e_lo e <? e_lo e) || (e_lo e + bsz >? e_hi e)) eqn:G1; [lia|].
-      destruct ((e_lo e + stp <? e_lo e) || (e_hi e >? e_hi e)) eqn:G2; [lia|].
-      set (e1 := Ev (filter (fun x => (e_lo e + stp <=? x) && (x <? e_hi e)) (evs e)) (e_lo e + stp) (e_hi e)).
+      (* the left-over is trimmed on the left only (repair fix-C12-er) *)
+      set (e1 := trim_left e (e_lo e + stp)).
       destruct (IH e1) as (e' & E1 & Hinv' & Hhi & Hlo).
       * split.
-        -- intros x y Hx. cbn [e1 evs e_lo] in *. rewrite count_in_filter.
+        -- intros x y Hx. cbn [e1 trim_left evs e_lo] in *. rewrite count_in_filter.
            ++ apply Hcnt. lia.
-           ++ intros v Hv Hxy. rewrite Forall_forall in Hbd. specialize (Hbd v Hv). lia.
-        -- cbn [e1 evs e_hi]. apply Forall_forall. intros v Hv. apply filter_In in Hv. lia.
-      * cbn [e1 e_lo e_hi]. lia.
-      * rewrite E1. exists e'. cbn [e1 e_lo e_hi evs] in *.
+           ++ intros v Hv Hxy. lia.
+        -- cbn [e1 trim_left evs e_hi]. apply Forall_forall. intros v Hv. apply filter_In in Hv.
+           destruct Hv as [Hv _]. rewrite Forall_forall in Hbd. exact (Hbd v Hv).
+      * cbn [e1 trim_left e_lo e_hi]. lia.
+      * rewrite E1. exists e'. cbn [e1 trim_left e_lo e_hi evs] in *.
         split; [|split; [exact Hinv'|split; [exact Hhi|exact Hlo]]].
         do 2 f_equal. f_equal. fold (count_in (evs e) (e_lo e) (e_lo e + bsz)). apply Hcnt. lia.
     + exists e. split; [reflexivity|]. split; [split; assumption|split; reflexivity].
